@@ -197,14 +197,17 @@ theorem applyToDomain_negative_tolerance_counterexample :
     have : n = 0 := by exact_mod_cast this
     omega
 
-/-- `enforceable` (the declared box is sound; otherwise the analyzer is unchanged). -/
-theorem enforceable_sound (ρ : String → K) (an : Analyzer (Ext K)) (domain : List (DomVar (Ext K)))
+/-- `enforceable`: the declared box is sound; otherwise the stored range of every `IntegerRange` variable is
+replaced by its tolerant rounding (what `apply_to_domain` publishes), which keeps every integer of the old
+range — for every finite tolerance `≥ 0`. -/
+theorem enforceable_sound (ρ : String → K) (an : Analyzer (Ext K)) (domain : List (DomVar (Ext K))) (tol : K)
+    (htol : an.tolerance = .fin tol) (htol0 : 0 ≤ tol)
     (hd : ∀ d ∈ domain, InDomain d.ty (ρ d.name)) (hbox : InBox ρ an.variableBounds) :
     InBox ρ (an.enforceable domain).variableBounds := by
   unfold Analyzer.enforceable
   split
   · exact fromDomain_inBox domain an.tolerance hd
-  · exact hbox
+  · exact roundIntegerRanges_inBox tol htol0 domain an htol hd hbox
 
 /-- the copy of `enforceable` in the pipeline model is the same function. -/
 theorem compile_enforceable_eq (an : Analyzer (Ext K)) (domain : List (DomVar (Ext K))) :
@@ -259,11 +262,13 @@ theorem linearizerBounds_sound (domain : List (DomVar (Ext K))) (normalized : Li
     (ρ : String → K) (hρ : SrcFeasible domain normalized ρ) :
     let r := linearizerBounds domain normalized (.fin tol) maxSteps
     (∀ p ∈ r.variables, Mem (ρ p.1) p.2) ∧ (∀ d' ∈ r.domain, InDomain d'.ty (ρ d'.name)) := by
-  have hbox := enforceable_sound ρ _ domain hρ.1 (analyze_sound domain normalized (.fin tol) maxSteps ρ hρ)
-  have htol : ((Analyzer.analyze domain normalized (.fin tol) maxSteps).enforceable domain).tolerance = .fin tol := by
-    rw [enforceable_tol]
+  have htolA : (Analyzer.analyze domain normalized (.fin tol) maxSteps).tolerance = .fin tol := by
     unfold Analyzer.analyze Analyzer.propagate
     exact propagateLoop_tolerance _ _ _ _ _ _ _
+  have hbox := enforceable_sound ρ _ domain tol htolA htol0 hρ.1
+    (analyze_sound domain normalized (.fin tol) maxSteps ρ hρ)
+  have htol : ((Analyzer.analyze domain normalized (.fin tol) maxSteps).enforceable domain).tolerance = .fin tol := by
+    rw [enforceable_tol]; exact htolA
   refine ⟨?_, ?_⟩
   · intro p hp
     simp only [linearizerBounds, List.mem_map] at hp
